@@ -239,6 +239,29 @@ def run(chk):
             sph = True
             aimed_profile = [("ridge across the date line", _cp(True, base + rng.uniform(-28, 28), rng.uniform(-33, 33), dd, 6371000.0, TOP), dd)
                              for dd in [float(round(rng.uniform(0, 1.5e5))) for _k in range(40)]]
+        if wi % 12 == 4:
+            # ridges with a repeated coordinate, as digitised lines have them: the first two, the last two or two in the middle
+            # coincide (a ridge segment of length zero); oceanic plate with the plate / half space model, both coordinate systems
+            from wbgen import cart_point as _cp
+            sph = (wi // 12) % 2 == 1
+            dup = (wi // 12) % 3
+            sc = 1.0 if sph else 2.5e4
+            cx, cy = (round(rng.uniform(-100, 100), 1), round(rng.uniform(-30, 30), 1)) if sph else (0.0, 0.0)
+            ridge = [[cx + 8 * sc, cy - 14 * sc], [cx + 10 * sc, cy - 2 * sc], [cx + 9 * sc, cy + 6 * sc], [cx + 11 * sc, cy + 15 * sc]]
+            ridge.insert({0: 0, 1: len(ridge), 2: 2}[dup], list(ridge[{0: 0, 1: len(ridge) - 1, 2: 2}[dup]]))
+            vel = rng.choice([0.05, [[0.0, [[0.03, 0.04, 0.05, 0.06, 0.07]]]]])
+            wj = {"version": "1.1", "features": [{"model": "oceanic plate", "name": "o",
+                                                   "coordinates": [[cx - 20 * sc, cy - 20 * sc], [cx + 20 * sc, cy - 20 * sc], [cx + 20 * sc, cy + 20 * sc], [cx - 20 * sc, cy + 20 * sc]],
+                                                   "max depth": 1.5e5,
+                                                   "temperature models": [{"model": ["plate model", "half space model"][(wi // 36) % 2], "max depth": 1.5e5, "top temperature": 300.0,
+                                                                           "bottom temperature": rng.choice([1600.0, -1]), "ridge coordinates": [ridge], "spreading velocity": vel}]}]}
+            if sph:
+                wj["coordinate system"] = {"model": "spherical", "depth method": "begin segment"}
+            aimed_profile = []
+            for _k in range(40):
+                dd = float(round(rng.uniform(0, 1.5e5)))
+                px, py = cx + rng.uniform(-19, 19) * sc, cy + rng.uniform(-19, 19) * sc
+                aimed_profile.append(("plate with a repeated ridge coordinate", _cp(True, px, py, dd, 6371000.0, TOP) if sph else (px, py, TOP - dd), dd))
         sanitize_numbers(wj)
         path = os.path.join(wdir, "w%d.wb" % wi)
         json.dump(wj, open(path, "w"))
